@@ -233,6 +233,14 @@ def prep(Hh, st):
         else:
             ex_d = io.dump_leg(extra)
         return dict(op='extend', a=A, axis=st['axis'], extra=ex_d), lambda: new(a.extend(st['axis'], extra), qt_of(a))
+    if op == 'iflip_leg':   # a.legs[k] = a.legs[k].flip_charges_qconj() / .outer_conj()  (pattern of networks/mpo.py)
+        k = st['k']
+
+        def run():
+            l = a.legs[k]
+            a.legs[k] = l.outer_conj() if hasattr(l, 'q_map') else l.flip_charges_qconj()
+            return inplace(qt_of(a))
+        return dict(op='flip_leg', a=A, k=k), run
     if op == 'gauge':
         line = dict(op='gauge', a=A, axis=st['axis'], newq=st['newq'], qconj=st['qconj'])
         q = valid(mods_of(a), st['newq']) if st['newq'] is not None else [0] * len(mods_of(a))
